@@ -169,7 +169,7 @@ func ExprShapes(ctx *core.Ctx, real *c16.Real, t *Tables, vals []Value) {
 		if err != nil {
 			return "", false
 		}
-		res := comp.Render("t.m", d, ij)
+		res := renderGuarded(&c16.Case{Files: []core.File{{Name: "t.soy", Text: src}}, Render: "t.m", ChainText: chain}, comp, d["x"], d, ij)
 		return res.Out, res.Err == nil
 	}
 	ch := make(chan job, 64)
@@ -213,7 +213,7 @@ func ExprShapes(ctx *core.Ctx, real *c16.Real, t *Tables, vals []Value) {
 							continue
 						}
 					}
-					res := c.Render("a.m", d, ij)
+					res := renderGuarded(&c16.Case{Files: files, Render: "a.m", ChainText: row.Text}, c, v.X, d, ij)
 					ln++
 					if res.Err != nil {
 						continue
@@ -390,9 +390,10 @@ func ExtraAttrs(ctx *core.Ctx, t *Tables, vals []Value, off, y [][]string) {
 					}
 					continue
 				}
+				cs := &c16.Case{Files: files, Render: "a.m", ChainText: row.Text}
 				for _, vi := range sample {
 					v := &vals[vi]
-					res := comp.Render("a.m", data.Map{"x": v.X}, nil)
+					res := renderGuarded(cs, comp, v.X, data.Map{"x": v.X}, nil)
 					ln++
 					if res.Err != nil {
 						continue
